@@ -46,9 +46,31 @@ def run_units(specs, worker, work, jobs=None):
     jobs = jobs or min(16, os.cpu_count() or 4)
     if len(specs) == 1 or jobs == 1:
         return [_run_one(s) for s in specs]
+    from concurrent.futures import ProcessPoolExecutor
+    from concurrent.futures.process import BrokenProcessPool
     ctx = mp.get_context('fork')
-    with ctx.Pool(min(jobs, len(specs))) as pool:
-        return pool.map(_run_one, specs, chunksize=1)
+    results = [None] * len(specs)
+    pending = list(range(len(specs)))
+    # a worker that dies (e.g. the natively compiled real code aborts) breaks the pool: the units that did not
+    # finish are retried one process each so that only the guilty unit is lost
+    for attempt in range(2):
+        if not pending:
+            break
+        with ProcessPoolExecutor(max_workers=min(jobs, len(pending)), mp_context=ctx) as pool:
+            futs = {i: pool.submit(_run_one, specs[i]) for i in pending}
+            for i, f in futs.items():
+                try:
+                    results[i] = f.result()
+                except BrokenProcessPool:
+                    results[i] = None
+                except Exception as e:
+                    results[i] = {'name': specs[i].name, 'obs': [], 'functions': [], 'stubs': [], 'paths': 0, 'validated': 0,
+                                  'mismatch': [], 'times': {}, 'error': 'worker: %s' % e, 'notes': []}
+        pending = [i for i in pending if results[i] is None]
+    for i in pending:
+        results[i] = {'name': specs[i].name, 'obs': [], 'functions': [], 'stubs': [], 'paths': 0, 'validated': 0, 'mismatch': [],
+                      'times': {}, 'error': 'worker process died (the natively compiled code aborted or was killed)', 'notes': []}
+    return results
 
 
 def chunk(ws, n):
@@ -120,6 +142,9 @@ class Ctx:
     def random_iinputs(self, w, j):
         if not w.n_iin:
             return []
+        dom = (w.meta or {}).get('iin_domain')
+        if dom:
+            return [int(dom[i][int(self.rng.integers(0, len(dom[i])))]) for i in range(w.n_iin)]
         if j == 0:
             return [((i * 5) % 7) - 3 for i in range(w.n_iin)]
         return [int(v) for v in self.rng.integers(-128, 128, size=w.n_iin)]
@@ -439,12 +464,12 @@ class Ctx:
                   'inputs': c.get('inputs_override') or [core.hexf(x) for x in xs], 'iinputs': list(ks), 'observed': o.reason})
         return core.write_replay(prop, o.oid, c)
 
-    def native_pair_replay(self, w_impl, w_ref):
-        """replay closure: run both wrappers natively, compare all outputs bit for bit"""
+    def native_pair_replay(self, w_impl, w_ref, ulps=0):
+        """replay closure: run both wrappers natively, compare all outputs bit for bit (or within `ulps`)"""
         def rp(xs, ks=()):
             o1, i1 = self.unit.call_native(w_impl, xs, ks)
             o2, i2 = self.unit.call_native(w_ref, xs, ks)
-            bad = [i for i in range(len(o1)) if not same_float(o1[i], o2[i])]
+            bad = [i for i in range(len(o1)) if not close_float(o1[i], o2[i], ulps, w_impl.out_ty)]
             badi = [i for i in range(len(i1)) if i1[i] != i2[i]]
             return (bool(bad or badi),
                     'inputs=%s impl=%s ref=%s' % ([core.hexf(x) for x in xs], [core.hexf(x) for x in o1] + list(i1),
@@ -452,7 +477,7 @@ class Ctx:
         rp.case = {'kind': 'pair', 'impl': w_impl.name, 'ref': w_ref.name}
         return rp
 
-    def native_term_replay(self, w_impl, ref_terms, ref_iterms=()):
+    def native_term_replay(self, w_impl, ref_terms, ref_iterms=(), ulps=0):
         """replay closure: run the wrapper natively and compare with NUM evaluation of specification terms"""
         def rp(xs, ks=()):
             o1, i1 = self.unit.call_native(w_impl, xs, ks)
@@ -460,7 +485,7 @@ class Ctx:
             env.update({'k%d' % i: k for i, k in enumerate(ks)})
             ev = modes.Num(env)
             exp = [H.NPT[w_impl.out_ty](ev.ev(t)) for t in ref_terms]
-            bad = [i for i in range(len(exp)) if not same_float(o1[i], exp[i])]
+            bad = [i for i in range(len(exp)) if not close_float(o1[i], exp[i], ulps, w_impl.out_ty)]
             expi = [int(ev.ev(t)) for t in ref_iterms]
             badi = [i for i in range(len(expi)) if (i1[i] & 0xFFFFFFFFFFFFFFFF) != (expi[i] & 0xFFFFFFFFFFFFFFFF)]
             rp.case['expected_out'] = [core.hexf(x) for x in exp]
@@ -481,6 +506,20 @@ def guarded(ctx, ident, fn):
         o.verdict = 'inconclusive'
         o.reason = 'internal error: %s: %s' % (type(e).__name__, str(e)[:200])
         ctx.out['notes'].append(traceback.format_exc()[-1200:])
+
+
+def close_float(a, b, ulps, ty):
+    """bit-identical, or (ulps > 0) finite and within that many units in the last place of the larger magnitude"""
+    if same_float(a, b):
+        return True
+    if not ulps:
+        return False
+    a_, b_ = np.longdouble(a), np.longdouble(b)
+    if not (np.isfinite(a_) and np.isfinite(b_)):
+        return False
+    from .algebra import ulp
+    fa, fb = core.np_to_frac(a_), core.np_to_frac(b_)
+    return abs(fa - fb) <= ulps * ulp(tm.FPREC[ty], tm.FEMIN[ty], max(abs(fa), abs(fb)))
 
 
 def same_float(a, b):
